@@ -696,6 +696,25 @@ Proof. exact SatWrapP.sat_wrap_field. Qed.
 Check C12_wrap_invariant : C12_wrap_invariant_full.
 Print Assumptions C12_wrap_invariant.
 
+(* through the text: what wrap_and_sort prints, read again without error (the path of
+   Control::wrap_and_sort, which stores the printed value), is evaluated like the field itself *)
+Theorem C12_wrap_invariant_reread :
+  forall (allow : bool) (f : RelGrammar.rfield) (g : str -> option version),
+  RelGrammar.wf_rfield allow f = true -> RelWrapSpec.field_safe f = true ->
+  (forall n v, g n = Some v -> ver_safe v = true) ->
+  exists t' tp, RelWrap.relations_ws RelWrap.fixed (RelGrammar.rtree_of f) = Ok t' /\
+    parse_relaxed (text t') allow = Ok (tp, 0) /\
+    deb_ll_sat tp g = deb_ll_sat (RelGrammar.rtree_of f) g.
+Proof. exact SatWrapP.sat_wrap_reread. Qed.
+Check C12_wrap_invariant_reread :
+  forall (allow : bool) (f : RelGrammar.rfield) (g : str -> option version),
+  RelGrammar.wf_rfield allow f = true -> RelWrapSpec.field_safe f = true ->
+  (forall n v, g n = Some v -> ver_safe v = true) ->
+  exists t' tp, RelWrap.relations_ws RelWrap.fixed (RelGrammar.rtree_of f) = Ok t' /\
+    parse_relaxed (text t') allow = Ok (tp, 0) /\
+    deb_ll_sat tp g = deb_ll_sat (RelGrammar.rtree_of f) g.
+Print Assumptions C12_wrap_invariant_reread.
+
 (* beyond the grammar: ANY tree whose accessors do not panic (what the tolerant reader returns for
    malformed text, what the constructors and edits build); the answer is the decision table of the
    accessor content, and the lossy evaluator on the sorted content gives it too *)
